@@ -2601,6 +2601,66 @@ fn case_tweedie_reject(c: &mut Case) -> Outcome {
     }
 }
 
+/// Targets on the boundary of the support: for 1 <= power < 2 the value 0 is inside the support, so a
+/// benign, well-scaled problem containing exact zeros must be fitted, not refused. One case = a batch of
+/// small problems; the batch is a violation only if *every* fit fails although the harness's own
+/// objective is finite at the documented start point (single failures stay inconclusive).
+fn case_tweedie_zero_targets(c: &mut Case) -> Outcome {
+    let fl = if c.rng.gen_bool(0.3) { Fl::F32 } else { Fl::F64 };
+    let power = *pick(&mut c.rng, &[1.0, 1.2, 1.5, 1.8, 1.99]);
+    let intercept = c.rng.gen_bool(0.7);
+    let cfg = GlmCfg { power, link: Some(Lk::Log), alpha: *pick(&mut c.rng, &[0.1, 1.0]), intercept, tol: None, max_iter: 200 };
+    let mut errors: Vec<String> = vec![];
+    let mut ok = 0usize;
+    let mut tried = 0usize;
+    for _ in 0..6 {
+        let n = c.rng.gen_range(12..=40usize);
+        let p = c.rng.gen_range(1..=2usize);
+        let x = Array2::from_shape_fn((n, p), |_| {
+            let v: f64 = c.rng.gen_range(-1.0..1.0);
+            if fl == Fl::F32 { (v as f32) as f64 } else { v }
+        });
+        let w: Vec<f64> = (0..p).map(|_| c.rng.gen_range(-0.5..0.5)).collect();
+        let mut y: Vec<f64> = (0..n)
+            .map(|i| {
+                let eta: f64 = (0..p).map(|j| w[j] * x[[i, j]]).sum::<f64>() + 0.3;
+                let v = eta.exp() * c.rng.gen_range(0.5..1.5);
+                if fl == Fl::F32 { (v as f32) as f64 } else { v }
+            })
+            .collect();
+        // exact zeros, at least one and at most a third of the targets
+        let nz = c.rng.gen_range(1..=(n / 3).max(1));
+        for _ in 0..nz {
+            let i = c.rng.gen_range(0..n);
+            y[i] = 0.0;
+        }
+        // the harness's objective at the documented start point (w = 0, b = link(mean y)) is finite
+        let b0 = if intercept { (y.iter().sum::<f64>() / n as f64).ln() } else { 0.0 };
+        let e0 = tweedie_eval(&x, &y, power, Lk::Log, cfg.alpha, &vec![0.0; p], b0, intercept);
+        if !e0.j.is_finite() {
+            continue;
+        }
+        tried += 1;
+        match glm_fit(fl, &x, &y, &cfg, Layout::C) {
+            FitOut::Ok(_) => ok += 1,
+            FitOut::Err(kind, e) => errors.push(format!("{kind}: {e}")),
+            FitOut::Panic(pn) => bail!("C12/tweedie/panic-on-in-support-zero-target", {"power": power, "float": fl.name(), "panic": pn}),
+            FitOut::Hang => return inconclusive(HANG_REASON),
+        }
+    }
+    c.note("power", json!(power));
+    c.note("float", json!(fl.name()));
+    c.note("fits_ok", json!(ok));
+    c.note("fits_tried", json!(tried));
+    c.evals = tried.max(1) as u64;
+    if tried < 3 {
+        return inconclusive("fewer than three problems with a finite start objective");
+    }
+    ensure!(ok > 0, "C12/tweedie/in-support-zero-targets-never-fitted",
+        {"power": power, "float": fl.name(), "intercept": intercept, "problems": tried, "errors": errors.iter().take(3).collect::<Vec<_>>()});
+    held(true, format!("zero-targets pw{power} {} ic{intercept} ok{ok}/{tried} {}", fl.name(), c.idx))
+}
+
 // ------------------------------------------------------------------- oracle self-check
 
 /// the analytic gradients used as oracle agree with central differences of the objectives
@@ -2700,4 +2760,5 @@ pub fn run(ctx: &Ctx) {
     fam!("prob-multi", if q { 150 } else { 3000 }, case_prob_multi);
     fam!("tweedie-random", if q { 900 } else { 27000 }, case_tweedie_random);
     fam!("tweedie-reject", if q { 200 } else { 4000 }, case_tweedie_reject);
+    fam!("tweedie-zero-targets", if q { 120 } else { 1500 }, case_tweedie_zero_targets);
 }
